@@ -38,3 +38,10 @@ Definition tpls_okb (nn nre nrf : nat) (tpls : list (list nref)) : bool :=
   forallb (fun tpl => nodup_nref tpl && forallb (nref_inb nn nre nrf) tpl && (length tpl =? nn)) tpls.
 Definition uses (e : ekind) (tpls : list (list nref)) : bool :=
   existsb (existsb (fun r => match r, e with NE _, KE | NF _, KF | NC, KC => true | _, _ => false end)) tpls.
+
+(* adaptive templates: a class with pattern pat uses only vertices and the nodes of its MARKED facets *)
+Definition adapt_okb (blocks : list (list bool * list (list nref))) : bool :=
+  forallb (fun b => (length (fst b) =? 3) &&
+     forallb (fun tpl => nodup_nref tpl && (length tpl =? 3) &&
+                forallb (fun r => match r with NV i => i <? 3 | NF j => (j <? 3) && nth j (fst b) false | _ => false end) tpl)
+             (snd b)) blocks.
